@@ -42,6 +42,9 @@ DirMul(d, e) == <<d[1] * e[1] - d[2] * e[2], d[2] * e[1] + d[1] * e[2], d[3] * e
 DirInv(d) == <<d[1], -d[2], d[3]>>
 IsDir(d) == Sq(d[1]) + Sq(d[2]) = Sq(d[3]) /\ d[3] > 0
 
+RECURSIVE GCD(_, _)
+GCD(a, b) == IF b = 0 THEN a ELSE GCD(b, a % b)
+
 (* ---------------- simple shapes ---------------- *)
 InCircle(cx, cy, r, p) ==
   LET c == Cmp(Sq(p[1] - cx) + Sq(p[2] - cy), Sq(r))
@@ -57,7 +60,8 @@ InEllipse(cx, cy, w, h, d, p) ==
       qq == IF even THEN Abs(v) * (w \div 2) ELSE 2 * Abs(v) * w
       rr == IF even THEN d[3] * (w \div 2) * (h \div 2) ELSE d[3] * w * h
   IN IF pp > rr \/ qq > rr THEN "OUT"
-     ELSE LET c == Cmp(Sq(pp) + Sq(qq), Sq(rr))
+     ELSE LET g == IF rr <= 32767 THEN 1 ELSE GCD(GCD(pp, qq), rr)      \* keep the squares within 32 bits
+              c == Cmp(Sq(pp \div g) + Sq(qq \div g), Sq(rr \div g))
           IN CASE c = "LT" -> "IN" [] c = "GT" -> "OUT" [] OTHER -> "EDGE"
 
 InRectangle(cx, cy, w, h, d, p) ==
@@ -237,6 +241,12 @@ Rotate(s, pivot, e) ==
        [] s.k = "line" -> LET a == RotPoint(<<s.x1, s.y1>>, pivot, e)  b == RotPoint(<<s.x2, s.y2>>, pivot, e)
                           IN [s EXCEPT !.x1 = a[1], !.y1 = a[2], !.x2 = b[1], !.y2 = b[2]]
        [] s.k = "compound" -> [s EXCEPT !.a = Rotate(s.a, pivot, e), !.b = Rotate(s.b, pivot, e)]
+
+RECURSIVE ScaleDirs(_, _)
+ScaleDirs(s, m) ==      \* the same direction written with all three entries multiplied by m
+  CASE s.k \in {"ellipse", "rectangle", "eannulus", "rannulus"} -> [s EXCEPT !.d = <<s.d[1] * m, s.d[2] * m, s.d[3] * m>>]
+    [] s.k = "compound" -> [s EXCEPT !.a = ScaleDirs(s.a, m), !.b = ScaleDirs(s.b, m)]
+    [] OTHER -> s
 
 RECURSIVE Translate(_, _, _)
 Translate(s, tx, ty) ==
